@@ -100,6 +100,11 @@ pub struct Sem<'a, 'b> {
     pub has_ws_only: bool,
     /// decided once per case: is `KeepAlive` imported from "vue" by the user?
     pub keepalive_is_bound: bool,
+    /// logging leaves whose order the statement leaves open (directive values / arguments)
+    pub unordered_leaves: Vec<String>,
+    in_directive: bool,
+    /// (mergeable name, log counter right after its latest occurrence) for the current element
+    merge_marks: Vec<(String, usize)>,
 }
 
 impl<'a, 'b> Sem<'a, 'b> {
@@ -119,6 +124,9 @@ impl<'a, 'b> Sem<'a, 'b> {
             value_kinds: vec![],
             has_ws_only: false,
             keepalive_is_bound: false,
+            unordered_leaves: vec![],
+            in_directive: false,
+            merge_marks: vec![],
         };
         s.keepalive_is_bound = s.c.bool();
         s.build_env();
@@ -272,6 +280,12 @@ impl<'a, 'b> Sem<'a, 'b> {
                 "t".into(),
                 serde_json::json!({"k":"tracer","id":"t","rets": rets, "default": {"k":"undef"}}),
             ));
+            self.env.globals.push((
+                "to".into(),
+                serde_json::json!({"k":"tracer","id":"to","rets": {}, "default":
+                    {"k":"obj","v":{"focus":{"k":"fn","id":"to.focus","ret":{"k":"undef"}},
+                                   "keyUp":{"k":"fn","id":"to.keyUp","ret":{"k":"undef"}}}}}),
+            ));
         }
         if let Some(p) = &self.opts.pragma {
             self.env.factories.push(p.clone());
@@ -360,7 +374,32 @@ impl<'a, 'b> Sem<'a, 'b> {
     fn logging_expr(&mut self) -> Ex {
         self.n_exprs += 1;
         let k = self.next_log();
+        if self.in_directive {
+            self.unordered_leaves.push(format!("t({k})"));
+        }
         Ex::src(format!("t({k})"), Cat::Call)
+    }
+
+    /// In logging mode a mergeable name may only repeat while no other logging leaf was
+    /// generated since its latest occurrence (then "position of the first occurrence" and
+    /// "source order" coincide and the expected trace is unique).
+    fn may_repeat(&mut self, name: &str) -> bool {
+        if !self.cfg.logging {
+            return true;
+        }
+        match self.merge_marks.iter().find(|(n, _)| n == name) {
+            Some((_, mark)) => *mark == self.log_counter,
+            None => true,
+        }
+    }
+
+    fn mark_mergeable(&mut self, name: &str) {
+        let c = self.log_counter;
+        if let Some(m) = self.merge_marks.iter_mut().find(|(n, _)| n == name) {
+            m.1 = c;
+        } else {
+            self.merge_marks.push((name.to_string(), c));
+        }
     }
 
     /// expression used as a listener value
@@ -447,6 +486,7 @@ impl<'a, 'b> Sem<'a, 'b> {
 
     pub fn attrs(&mut self, tag: &Tag, depth: usize) -> Vec<Attr> {
         let n = self.c.len(self.cfg.max_attrs);
+        let saved_marks = std::mem::take(&mut self.merge_marks);
         let mut out = vec![];
         let mut used_plain: Vec<String> = vec![];
         let mut used_handlers: Vec<String> = vec![];
@@ -506,6 +546,9 @@ impl<'a, 'b> Sem<'a, 'b> {
                             if cands.is_empty() {
                                 continue;
                             }
+                            if !self.may_repeat("class") {
+                                continue;
+                            }
                             let s = self.c.choose(&cands);
                             used_cls.push(s);
                             if used_cls.len() > 1 {
@@ -537,6 +580,9 @@ impl<'a, 'b> Sem<'a, 'b> {
                             if cands.is_empty() {
                                 continue;
                             }
+                            if !self.may_repeat("style") {
+                                continue;
+                            }
                             let s = self.c.choose(&cands);
                             used_sty.push(s);
                             if used_sty.len() > 1 {
@@ -564,6 +610,9 @@ impl<'a, 'b> Sem<'a, 'b> {
                             if name == "onUpdate:modelValue" && self.cfg.vmodel {
                                 continue;
                             }
+                            if !self.may_repeat(name) {
+                                continue;
+                            }
                             let before = out.iter().any(
                                 |a| matches!(a, Attr::Expr { name: n, .. } if n == name),
                             );
@@ -576,6 +625,11 @@ impl<'a, 'b> Sem<'a, 'b> {
                                 e,
                             });
                         }
+                    }
+                    // remember the leaf counter right after this mergeable attribute
+                    if let Some(Attr::Expr { name, .. } | Attr::Str { name, .. }) = out.last() {
+                        let name = name.clone();
+                        self.mark_mergeable(&name);
                     }
                 }
                 2 => {
@@ -616,7 +670,10 @@ impl<'a, 'b> Sem<'a, 'b> {
                     }
                     used_plain.push(name.clone());
                     let e = if self.cfg.logging {
-                        self.logging_expr()
+                        // `to(k)`: a tracer that returns an events object
+                        self.n_exprs += 1;
+                        let k = self.next_log();
+                        Ex::src(format!("to({k})"), Cat::Call)
                     } else {
                         match self.c.pick(3) {
                             0 => Ex::src(if name == "on" { "ev1" } else { "ev2" }, Cat::IdentBound),
@@ -637,7 +694,12 @@ impl<'a, 'b> Sem<'a, 'b> {
                     self.label("on-object");
                     out.push(Attr::On { name, e });
                 }
-                4 => out.push(self.directive()),
+                4 => {
+                    self.in_directive = true;
+                    let d = self.directive();
+                    self.in_directive = false;
+                    out.push(d);
+                }
                 5 => {
                     let name = if self.c.bool() { "html" } else { "text" };
                     if used_plain.contains(&name.to_string()) {
@@ -696,6 +758,7 @@ impl<'a, 'b> Sem<'a, 'b> {
                 }
             }
         }
+        self.merge_marks = saved_marks;
         out
     }
 
@@ -872,11 +935,9 @@ impl<'a, 'b> Sem<'a, 'b> {
             }
             3 => {
                 arg_name = "dynArg".into();
-                arr_arg = Some(VmArg::Dynamic(if self.cfg.logging {
-                    self.logging_expr()
-                } else {
-                    Ex::src("dyn1", Cat::IdentBound)
-                }));
+                // (in logging mode the computed argument stays a bare identifier: C11 exempts it -
+                // it may be evaluated once per generated prop key)
+                arr_arg = Some(VmArg::Dynamic(Ex::src("dyn1", Cat::IdentBound)));
                 self.label("vmodel-dynamic-arg");
             }
             _ => arg_name = "modelValue".into(),
@@ -1006,7 +1067,7 @@ impl<'a, 'b> Sem<'a, 'b> {
     /// Element-like hosts: a sole function / object-literal child is outside the domain (the
     /// statements define it for component hosts only; Vue has no rendering for such element
     /// children) - replace it by an identifier.
-    fn avoid_sole_fn_or_obj(&mut self, children: &mut [Child]) {
+    pub fn avoid_sole_fn_or_obj(&mut self, children: &mut [Child]) {
         for drop in [false, true] {
             WS_ONLY_DROP.with(|w| w.set(drop));
             let sole = {
